@@ -48,6 +48,44 @@ theorem sortBy_pairwise {α : Type} (lt : α → α → Bool)
     rw [this]
     exact insertBy_pairwise lt htrans hasym x _ ih
 
+/-- stability of one insertion: if no two elements picked by `p` are strictly ordered (they all
+    share one key), `x` is not moved behind any of them -/
+theorem insertBy_filter {α : Type} (lt : α → α → Bool) (p : α → Bool) (x : α)
+    (hp : ∀ y, p x = true → p y = true → lt y x = false) (l : List α) :
+    (insertBy lt x l).filter p = (x :: l).filter p := by
+  induction l with
+  | nil => simp [insertBy]
+  | cons y ys ih =>
+    unfold insertBy
+    split
+    · rename_i hyx
+      cases hpx : p x
+      · simp only [List.filter_cons, hpx] at ih ⊢
+        simp only [Bool.false_eq_true, if_false] at ih ⊢
+        rw [ih]
+      · have hpy : p y = false := by
+          cases hpy : p y
+          · rfl
+          · have := hp y hpx hpy
+            rw [hyx] at this; exact absurd this (by simp)
+        simp only [List.filter_cons, hpx, hpy] at ih ⊢
+        simp only [Bool.false_eq_true, if_false, if_true] at ih ⊢
+        exact ih
+    · rfl
+
+/-- stability of the whole sort: the elements picked by `p` (one key class) come out in their
+    input order -/
+theorem sortBy_filter {α : Type} (lt : α → α → Bool) (p : α → Bool)
+    (hp : ∀ x y, p x = true → p y = true → lt y x = false) (l : List α) :
+    (sortBy lt l).filter p = l.filter p := by
+  induction l with
+  | nil => simp [sortBy]
+  | cons x xs ih =>
+    have : sortBy lt (x :: xs) = insertBy lt x (sortBy lt xs) := by simp [sortBy]
+    rw [this, insertBy_filter lt p x (hp x)]
+    simp only [List.filter_cons]
+    rw [ih]
+
 section
 variable {K : Type} [Field K] [LinearOrder K] [IsStrictOrderedRing K]
 
